@@ -27,6 +27,14 @@ Proof.
   destruct (Nat.eqb i li); rewrite H; cbn; eauto.
 Qed.
 
+Lemma q_pres_put : forall s s' i l l', get_loop s i = Some l -> e_loops s' = upd i (fun _ => l') (e_loops s) ->
+  (forall t, In t (l_q l) -> In t (l_q l')) -> q_pres s s'.
+Proof.
+  intros s s' i l l' Hl E Hf li lx H. unfold get_loop in *. rewrite E, nth_error_upd.
+  destruct (Nat.eqb_spec i li) as [->|Hne]; rewrite H; cbn; eauto.
+  rewrite Hl in H. injection H as <-. eauto.
+Qed.
+
 Lemma q_pres_map : forall s s' f, e_loops s' = map f (e_loops s) ->
   (forall l, l_q (f l) = l_q l) -> q_pres s s'.
 Proof.
@@ -75,6 +83,24 @@ Proof.
   - destruct Hi as [->|Hi]; [left; reflexivity|right; eapply IH; eauto].
 Qed.
 
+Lemma Inv_q_run : forall s i l k tk l' s',
+  Inv_q s -> get_loop s i = Some l -> nth_error (l_q l) k = Some tk ->
+  (forall t, In t (l_q l) -> t <> tk -> In t (l_q l')) ->
+  e_loops s' = upd i (fun _ => l') (e_loops s) ->
+  (forall j w', nth_error (e_workers s') j = Some w' -> w_pc w' = WWait -> w_opened w' = false ->
+     exists w, nth_error (e_workers s) j = Some w /\ w_pc w = WWait /\ w_opened w = false /\ w_loop w = w_loop w' /\
+               forall cid, tk <> TReg cid (OWorker j)) ->
+  Inv_q s'.
+Proof.
+  intros s i l k tk l' s' HI Hl Hk Hin EL HW j w' Hj Hp Ho.
+  destruct (HW j w' Hj Hp Ho) as [w [H1 [H2 [H3 [H4 H5]]]]].
+  destruct (HI j w H1 H2 H3) as [lw [cid [Hlw Hi]]]. rewrite H4 in Hlw.
+  unfold get_loop in *. rewrite EL, nth_error_upd. destruct (Nat.eqb_spec i (w_loop w')) as [Hii|Hne].
+  - rewrite <- Hii in Hlw. rewrite Hl in Hlw. injection Hlw as <-. rewrite <- Hii, Hl. cbn.
+    exists l', cid. split; [reflexivity|]. apply Hin; [exact Hi|]. apply not_eq_sym. apply H5.
+  - exists lw, cid. auto.
+Qed.
+
 Ltac qw_fin := frame_fin;
   first [ apply q_pres_refl; reflexivity
         | (eapply q_pres_upd; [reflexivity|]; intros; cbn; rewrite ?in_app_iff; auto)
@@ -100,40 +126,22 @@ Proof.
     all: step_cases H.
     all: try match goal with E : apply_cb _ _ _ _ = _ |- _ => apply apply_cb_spec in E; destruct E as [Eq _]; cbn in Eq end.
     all: try match goal with E : loop_common _ _ _ = Some _ |- _ => unfold loop_common in E; rewrite Epc in E; step_cases E end.
-    all: try (eapply Inv_q_pres; [exact HI| |];
-              [frame_fin; eapply q_pres_upd; [reflexivity|]; intros lx tx Htx; cbn; rewrite ?Eq; cbn; auto
-              |frame_fin; apply w_pres_same; reflexivity]; fail).
-    all: try match goal with E : nth_error (l_q l) ?k = Some ?tk |- _ => rename E into Enth end.
-    + (* exit task *)
-      intros j w Hj Hp Ho. cbn [e_workers set_loops] in Hj.
-      destruct (HI j w Hj Hp Ho) as [lw [cid [Hlw Hin]]].
-      unfold get_loop in *. cbn [e_loops set_loops]. rewrite nth_error_upd. destruct (Nat.eqb_spec i (w_loop w)) as [->|Hne].
-      * rewrite Hl in Hlw. injection Hlw as <-. rewrite Hl. cbn. eexists _, cid. split; [reflexivity|].
-        cbn. eapply In_remove_nth; eauto. discriminate.
-      * eauto.
-    + (* a registration task *)
-      intros j w Hj Hp Ho.
-      assert (Hw0 : exists w0, nth_error (e_workers s) j = Some w0 /\ w_pc w0 = WWait /\ w_opened w0 = false /\ w_loop w0 = w_loop w /\ o <> OWorker j).
-      { destruct o as [|jo|g]; destruct b; cbn [signal cancel_if e_workers set_workers set_users set_cancel set_loops] in Hj;
-          try (exists w; splits; auto; discriminate).
-        all: rewrite nth_error_upd in Hj; destruct (Nat.eqb_spec jo j) as [->|Hne].
-        all: try (destruct (nth_error (e_workers s) j); cbn in Hj; [|discriminate]; injection Hj as <-; cbn in Ho; discriminate).
-        all: exists w; splits; auto; congruence. }
-      destruct Hw0 as [w0 [Hj0 [Hp0 [Ho0 [Hlo Hno]]]]].
-      destruct (HI j w0 Hj0 Hp0 Ho0) as [lw [cidw [Hlw Hin]]]. rewrite Hlo in Hlw.
-      assert (Hloops : e_loops (signal (cancel_if b (set_loops s (upd i (fun _ => l0) (e_loops s)))) o) = upd i (fun _ => l0) (e_loops s)).
-      { destruct o; destruct b; reflexivity. }
-      unfold get_loop in *. rewrite Hloops, nth_error_upd. destruct (Nat.eqb_spec i (w_loop w)) as [Hi|Hne].
-      * rewrite <- Hi in Hlw. rewrite Hl in Hlw. injection Hlw as <-. rewrite <- Hi, Hl. cbn. eexists _, cidw. split; [reflexivity|].
-        rewrite Eq. cbn. eapply In_remove_nth; eauto. congruence.
-      * eauto.
-    + (* a runnable *)
-      intros j w Hj Hp Ho. cbn [e_workers set_loops] in Hj.
-      destruct (HI j w Hj Hp Ho) as [lw [cid [Hlw Hin]]].
-      unfold get_loop in *. cbn [e_loops set_loops]. rewrite nth_error_upd. destruct (Nat.eqb_spec i (w_loop w)) as [->|Hne].
-      * rewrite Hl in Hlw. injection Hlw as <-. rewrite Hl. cbn. eexists _, cid. split; [reflexivity|].
-        cbn. eapply In_remove_nth; eauto. discriminate.
-      * eauto.
+    all: try match goal with X : false = ?b |- _ => subst b end; try match goal with X : true = ?b |- _ => subst b end.
+    all: try match goal with |- context [cancel_if ?b _] => destruct b; cbn [cancel_if] end.
+    all: try match goal with |- context [if act_shut ?a then _ else _] => destruct (act_shut a) end.
+    all: try (eapply Inv_q_pres; [exact HI
+              |eapply q_pres_put; [exact Hl|reflexivity|intros tx Htx; cbn; rewrite ?Eq; cbn; auto]
+              |apply w_pres_same; reflexivity]; fail).
+    all: try match goal with E : nth_error (l_q _) ?k = Some ?tk |- _ => rename E into Enth end.
+    all: eapply Inv_q_run; [exact HI|exact Hl|exact Enth| |first [reflexivity|destruct o; reflexivity]|].
+    all: try (intros tx Htx Hne; cbn; rewrite ?Eq; cbn; eapply In_remove_nth; eauto).
+    all: intros j w' Hj Hp Ho.
+    all: try (exists w'; splits; auto; intros; discriminate).
+    all: destruct o as [|jo|g]; cbn [signal e_workers set_workers set_users set_cancel set_loops] in Hj;
+         try (exists w'; splits; auto; intros; discriminate).
+    all: rewrite nth_error_upd in Hj; destruct (Nat.eqb_spec jo j) as [->|Hne];
+         [destruct (nth_error (e_workers s) j); cbn in Hj; [|discriminate]; injection Hj as <-; cbn in Ho; discriminate
+         |exists w'; splits; auto; intros; congruence].
   - unfold astep in H. step_cases H.
     all: eapply Inv_q_pres; [exact HI| |]; qw_fin.
   - unfold tstep in H. step_cases H.
